@@ -287,6 +287,103 @@ class MonitorIteration(Target):
         return []
 
 
+class ObserverWiring(Target):
+    """'once ALL producers have finished': ComponentState.stageIn tells the repeating engine that its producers are done
+    only when none of them is alive; otherwise it subscribes to the finished-notification of EVERY producer that is still
+    alive -- also when two producers in different stages carry the same name."""
+    prop = 'C13'
+    name = 'ComponentState.stageIn[observer]'
+    file = 'python/experiment/runtime/workflow.py'
+    qualname = 'ComponentState.stageIn'
+    inline_class = {'this': ('python/experiment/runtime/workflow.py', 'ComponentState')}
+    compare_return = False
+    trusted = ["reactivex.merge(*sources).pipe(...).subscribe(on_completed=f) calls f once every source has completed",
+               "report_exceptions returns a wrapper of the callback"]
+    assumptions = ["<= 2 producers (alive or not; possibly with the SAME name in different stages; possibly listed twice)"]
+
+    def setup(self, c):
+        import experiment.runtime.engine as engine_mod
+        g = c.ghost
+        g['merged'] = None
+        g['notified'] = 0
+        n = c.choice('producers', 3)
+        same_name = c.one_of('same_name_in_two_stages', [False, True]) if n == 2 else False
+        listed_twice = c.one_of('first_producer_listed_twice', [False, True]) if n >= 1 else False
+        prods = []
+        for i in range(n):
+            alive = c.one_of('p%d.alive' % i, [True, False])
+            name = 'foo' if same_name else 'prod%d' % i
+            p = Obj('producer%d' % i, name=name, isAlive=Extern('isAlive', lambda c, alive=alive: alive),
+                    notifyFinished='finished-of-stage%d.%s' % (i, name),
+                    specification=Obj('spec', reference='stage%d.%s' % (i, name)))
+            p._alive = alive
+            prods.append(p)
+        listing = list(prods) + ([prods[0]] if listed_twice else [])
+        eng = Obj('engine', _cls=engine_mod.RepeatingEngine,
+                  notify_all_producers_finished=Extern('notify_all_producers_finished', lambda c: g.__setitem__('notified', g['notified'] + 1)))
+        this = Obj('ComponentState', engine=eng, producers=listing, _finishedCalled=False, log=NULLLOG,
+                   specification=Obj('spec', reference='stage1.observer', workflowAttributes={'isRepeat': True}))
+        return State(args=[this], kwargs={'stageData': False}, this=this, prods=prods)
+
+    def externs(self, c, st):
+        g = c.ghost
+        chain = Obj('observable')
+        chain.pipe = Extern('pipe', lambda c, *a: chain)
+        chain.subscribe = Extern('subscribe', lambda c, **k: 'disposable')
+
+        def merge(c, *sources):
+            g['merged'] = list(sources)
+            return chain
+        return {'reactivex.merge': Extern('reactivex.merge', merge),
+                'op.observe_on': Extern('op.observe_on', lambda c, *a: 'op'), 'op.filter': Extern('op.filter', lambda c, *a: 'op'),
+                'experiment.runtime.utilities.rx.report_exceptions': Extern('report_exceptions', lambda c, f, *a, **k: f),
+                'ComponentState.componentScheduler': 'scheduler'}
+
+    def ensures(self, c, st, out):
+        if out.kind == 'raise':
+            return [('no-exception', False)]
+        g = c.ghost
+        alive = [p.notifyFinished for p in st.prods if p._alive]
+        merged = g['merged'] or []
+        return [('told-at-once-only-when-no-producer-is-alive', (g['notified'] == 1) == (not alive)),
+                ('waits-for-every-producer-that-is-still-alive', set(merged) == set(alive))]
+
+    def cross_compare(self, *a):
+        return []
+
+
+class KillDelayExpires(Target):
+    """'... or the configured kill delay expires': when the kill-after-producers-done timer fires (the closure `suicide`),
+    the engine stops -- it is killed at once when no task is running, or the running task is killed (the controller step
+    that launched it then kills the engine: the `elif self._suicide` arm of EngineTaskController, under contract above)."""
+    prop = 'C13'
+    name = 'RepeatingEngine.notify_all_producers_finished.suicide'
+    file = EN
+    qualname = 'RepeatingEngine.notify_all_producers_finished.suicide'
+    trusted = ["Task.isAlive is True exactly while the task runs; Task.kill on a finished task has no effect"]
+    assumptions = ["no task yet / a task that already finished (between two executions) / a running task"]
+
+    def setup(self, c):
+        g = c.ghost
+        g['engine_killed'] = 0
+        g['task_killed'] = 0
+        task = c.one_of('task', ['none', 'finished', 'running'])
+        proc = None if task == 'none' else Obj('task', isAlive=Extern('Task.isAlive', lambda c: task == 'running'),
+                                                kill=Extern('Task.kill', lambda c: g.__setitem__('task_killed', g['task_killed'] + 1)),
+                                                returncode=0 if task == 'finished' else None)
+        this = Obj('repeating-engine', log=NULLLOG, process=proc, _suicide=False, kernelCompleted=False,
+                   kill=Extern('kill', lambda c: g.__setitem__('engine_killed', g['engine_killed'] + 1)))
+        return State(args=[], free={'self': this}, this=this, task=task)
+
+    def ensures(self, c, st, out):
+        if out.kind == 'raise':
+            return [('no-exception', False)]
+        g = c.ghost
+        if st.task == 'running':
+            return [('a-running-task-is-killed-and-the-engine-marked', g['task_killed'] == 1 and st.this._suicide is True)]
+        return [('with-no-task-running-the-engine-is-stopped-at-once', g['engine_killed'] == 1 and st.this.kernelCompleted is True)]
+
+
 class ScheduleNextInstance(Target):
     prop = 'C13'
     name = 'RepeatingEngine.run.schedule_next_instance'
@@ -383,5 +480,5 @@ class BoundedStop(Lemma):
                 ('no-retries-left-means-kill', Implies(And(step, pd, budget0 == r0 + 1, budget0 == 1), killed))]
 
 
-TARGETS = [TaskController(), ScheduleNextInstance(), NotifyProducersFinished(), MonitorIteration()]
+TARGETS = [TaskController(), ScheduleNextInstance(), NotifyProducersFinished(), MonitorIteration(), ObserverWiring(), KillDelayExpires()]
 LEMMAS = [BoundedStop()]
